@@ -174,7 +174,7 @@ def rule_F(ck, lib):
                     ln = ("call", "core::slice::len", (data,))
                     ok = pc is not None and len(pc) == 3 and pc[0] == ("lit", b"#") and pc[1][0] == "arg" and pc[2][0] == "arg" and not pc[1][4] and not pc[2][4] \
                         and strip_sites(pc[2][3]) == ln and strip_sites(pc[1][3])[0] == "bin" and strip_sites(pc[1][3])[1] == "Add" \
-                        and strip_sites(pc[1][3])[2] == ("call", "core::num::ilog10", (ln,)) and strip_sites(pc[1][3])[3] == ("lit", "int", 1)
+                        and strip_sites(pc[1][3])[2][0] == "call" and strip_sites(pc[1][3])[2][1].endswith("::ilog10") and strip_sites(pc[1][3])[2][2] == (ln,) and strip_sites(pc[1][3])[3] == ("lit", "int", 1)
                 ck.judge(ok, "C04-F", "arbitrary:block", "#<ilog10(len)+1><len> then the raw bytes", "non-empty block response is %s" % [(o, show_term(d)) for o, d, _ in tr])
                 # the header write is ?-propagated before the payload
                 ck.judge(any(c[0] == "is" and c[2] == OK and c[3] and c[1][0] == "call" and c[1][1] == W + "write_fmt" for c in x.conds), "C04-F", "arbitrary:header-checked",
@@ -403,11 +403,12 @@ def rule_X(ck, lib):
         if qv and okc:
             # write_char('\n') then flush; each ?-propagated; nothing after
             want = [("write_char", ("lit", "char", 10)), ("flush", None)]
+            last_is_flush = x.value[0] == "call" and x.value[1] == W + "flush" and x.effects and [e for e in x.effects if e[0] == "call"][-1][1] == W + "flush"
             if success(x):
-                ck.judge(tr == want and x.value == ("ctor", OK, (pathsum.UNIT,)), "C04-X", key, "successful query: '\\n' then flush, then Ok",
+                ck.judge(tr == want and (x.value == ("ctor", OK, (pathsum.UNIT,)) or last_is_flush), "C04-X", key, "successful query: '\\n' then flush, then Ok",
                          "successful query path writes %s (expected newline, then flush)" % [(o, show_term(d) if d else None) for o, d in tr])
             else:
-                ck.judge(tr == want[:len(tr)] and x.kind == "err", "C04-X", key + ":writer-error", "writer error propagated",
+                ck.judge(tr == want[:len(tr)] and x.kind in ("return", "err") and x.value[0] == "ctor" and x.value[1] == ERR, "C04-X", key + ":writer-error", "writer error propagated",
                          "writer failure path: %s / %s" % (tr, x.kind))
             # order: after execute_command
             idx_cmd = [j for j, e in enumerate(x.effects) if e[0] == "call" and e[1] == EXECMD]
@@ -521,10 +522,10 @@ def rule_A(ck):
                 if wok is None:
                     probs.append("result of writing the response is ignored")
                 elif wok is False:
-                    if not (x.kind == "err" and x.value == ("ctor", ERR, (("payload", wt, ERR, 0),))):
+                    if not (x.kind in ("return", "err") and x.value == ("ctor", ERR, (("payload", wt, ERR, 0),))):
                         probs.append("a failed response write ends in `%s %s` instead of returning the error" % (x.kind, show_term(x.value) if x.value else ""))
                 else:
-                    if not (x.kind == "return" and x.value == ("ctor", OK, (pathsum.UNIT,))):
+                    if not (x.kind in ("return", "err") and x.value == ("ctor", OK, (pathsum.UNIT,))):
                         probs.append("successful arm does not return Ok(())")
             ck.judge(not probs, "C04-A", "witness:%s:arm%d" % (spec["mod"], k), "response written once from the handler's Ok value, result propagated",
                      "; ".join(sorted(set(probs))))
